@@ -217,8 +217,8 @@ Definition guard_F5 (ops : list op) : bool :=
   let es := all_exprs ops in
   existsb (fun a => existsb (keys_clash a) es) es.
 
-(** no guard of a finding that the code still has fires ([fx]: which of the
-    candidate repairs fixes/C06-F3/F4/F5.diff it contains) *)
+(** no guard of a finding that the bare repository still has fires ([fx]: which of
+    the repairs of C06-F3/F4/F5 — fix: commits 2d9cd1f, 003095f, f6ce52b — it contains) *)
 Definition no_guard_fx (fx : fixes) (ops : list op) : bool :=
   negb (guard_F1 ops || guard_F2 ops || (negb (fix_F3 fx) && guard_F3 ops) || (negb (fix_F4 fx) && guard_F4 ops) ||
         (negb (fix_F5 fx) && guard_F5 ops) || guard_dupid ops).
@@ -259,6 +259,8 @@ Fixpoint dirty_from (S : sets) (d : list nat) (ops : list op) : list nat :=
 
 Definition dirty (ops : list op) : list nat := dirty_from [] [] ops.
 
-(** the guards of the findings that are open in the tree as it is now (C06-F3, F4,
-    F5 are repaired: fix: commits 2d9cd1f, 003095f, f6ce52b) *)
+(** the history-global guards that matter for the BARE repository [run all_fix]
+    (C06-F3, F4, F5 are repaired: fix: commits 2d9cd1f, 003095f, f6ce52b; C06-F6 is
+    repaired in the rule-set processor, 5e2c60e, which the bare repository does not
+    contain: see C06/Processor.v).  Used by the witnesses only. *)
 Definition open_guards (ops : list op) : bool := guard_F1 ops || guard_F2 ops || guard_dupid ops.
